@@ -458,6 +458,9 @@ def oracle_c11(res: dict[str, Any]) -> list[tuple[str, str]]:
         elif kind == "final":
             if st == "final":
                 out.append(("instance-finalized-twice", f"tick {t}: {name} #{ser} finalized twice"))
+            if st == "new":
+                # pairing: the finalize callback of an instance whose initialize callback never ran
+                out.append(("finalized-without-initialize", f"tick {t}: {name} #{ser} finalized, never initialized"))
             state[ser] = "final"
     return out
 
